@@ -78,6 +78,13 @@ STATEMENT_STATUS = {
     "alpha_translated": "proved for every integer: format_int_alpha assembled from the translated pieces = hand model",
     "alpha_translated_bijective": "proved for every n > 0 about the translated code: numeral read in bijective base 26 is n",
     "alpha_translated_cex": "proved: the translated code maps 28 to 'ab' (open finding alpha-repeat)",
+    "alpha_characterised": "proved for every n > 0 and every string t: format_int_alpha(n) = t iff t is lowercase letters reading n in "
+                           "bijective base 26 (complete characterisation of the pinned letters numeral)",
+    "bijNumeral_unique": "proved: a value has at most one bijective base-26 letters numeral",
+    "numeral_full": "proved FULL (no value bound): wherever ISO defines a numeral the code returns normally - Table 159 for D/R/r/none, "
+                    "the unique bijective base-26 numeral for A/a (open finding alpha-repeat, nothing else)",
+    "C17_label_full": "proved FULL for every conforming tree and every page with a defined label, all styles, all values: "
+                      "prefix ++ numeral of numeral_full",
     "alpha_fuel_suffices": "proved (the loop bound of the letters model is never hit)",
     "numtree_flatten": "proved for every tree shape (mutual induction)",
     "numtree_values": "proved: values = in-order flattening when keys ascend",
